@@ -2404,10 +2404,8 @@ func compDefineX(sc *scope, n *node) error {
 		} else {
 			types = funtype.ret
 		}
-		if n.anc.kind == varDecl && n.child[l-1].isType(sc) {
-			l--
-		}
-		if len(types) != l {
+		// In a variable declaration, a type may follow the variables.
+		if l = n.nleft; len(types) != l {
 			return n.cfgErrorf("assignment mismatch: %d variables but %s returns %d values", l, src.child[0].name(), len(types))
 		}
 		if isBinCall(src, sc) {
